@@ -4,6 +4,7 @@ import HpxVerif.Lemmas.C2VReal
 import HpxVerif.Lemmas.EnvelopeReal6
 import HpxVerif.Lemmas.CellExtent4
 import HpxVerif.Lemmas.EnvelopePolar7
+import HpxVerif.Lemmas.Tightness4
 
 set_option autoImplicit false   -- an unknown identifier in a statement is an error, never a new variable
 
@@ -432,5 +433,46 @@ theorem polar_envelope_dominates_at_centres_partial (cfg : Cfg) (d hash b i j : 
 
 
 end PolarEnvelope
+
+
+/-! ## the helpers never exceed twice a true centre-to-vertex distance of the depth (`Mtrue d = π/4 · 2^-d`: the cell centred on the
+equator of base cell 4) - every depth, every position, both profiles; a negative radius is outside this (counter-example) -/
+
+section HelperIsTight
+open Hpx Hpx.Hash Hpx.Proj Hpx.Cover Hpx.C2V Hpx.C2VReal Hpx.EnvelopeReal Hpx.EnvelopePolar Hpx.CellReal Hpx.TopoLift Hpx.CellExtent Hpx.Bmoc Hpx.Sph Hpx.EConeEq Hpx.Tightness Real
+
+/-- **`envelope_le_twice_true_all`** (ℝ, both profiles, NO hypothesis on the position): whenever
+    `largest_center_to_vertex_distance(d, lon, lat)` returns a value `v` (every depth `0 … 29`; every real `lon`, negative
+    ones included, every real `lat`), `v ≤ 2·Mtrue d`: twice the true centre-to-vertex distance `π/4·2^-d` of the cells of
+    depth `d` centred on the equator. -/
+theorem envelope_le_twice_true_all (dbg : Bool) (d : ℕ) (lon lat v : ℝ)
+    (h : largestC2V dbg d lon lat = some v) : v ≤ 2 * Mtrue d :=
+  Hpx.Tightness.envelope_le_twice_true_all dbg d lon lat v h
+
+/-- **`envelope_with_radius_le_twice_true_all`** (ℝ, both profiles): the same for
+    `largest_center_to_vertex_distance_with_radius`, every position, every radius `r ≥ 0` -/
+theorem envelope_with_radius_le_twice_true_all (dbg : Bool) (d : ℕ) (lon lat r v : ℝ) (hr : 0 ≤ r)
+    (h : largestC2VWithRadius dbg d lon lat r = some v) : v ≤ 2 * Mtrue d :=
+  Hpx.Tightness.envelope_with_radius_le_twice_true_all dbg d lon lat r v hr h
+
+/-- **the hypothesis `0 ≤ r` is necessary**: at every depth `1 … 29` there is a NEGATIVE radius for which
+    `largest_center_to_vertex_distance_with_radius(d, 0, 1/2, r)` exceeds `2·Mtrue d` (the decreasing line of the upper
+    equatorial region is extrapolated below `lsc`) -/
+theorem with_radius_negative_unbounded (d : ℕ) (hd1 : 1 ≤ d) (hd2 : d ≤ 29) :
+    ∃ r v : ℝ, r < 0 ∧ largestC2VWithRadius false d 0 (1 / 2) r = some v ∧ 2 * Mtrue d < v :=
+  Hpx.Tightness.with_radius_negative_unbounded d hd1 hd2
+
+/-- **`Mtrue_is_true_c2v`**: at every depth `0 … 29` the cell number `eqCell d` is a cell of the NESTED scheme whose centre is
+    on the equator, and the angular distances from `center` to its four `vertices` (S, E, N, W) are at most `Mtrue d`, with
+    equality for the east and west vertices: `Mtrue d` is the largest true centre-to-vertex distance of that cell. -/
+theorem mtrue_is_true_c2v (cfg : Cfg) (d : ℕ) (hd : d ≤ 29) :
+    eqCell d < Layer.nHash d ∧
+    ∃ c s e n w : ℝ × ℝ, center (α := ℝ) cfg d (eqCell d) = some c ∧
+      vertices (α := ℝ) cfg d (eqCell d) = some [s, e, n, w] ∧ c.2 = 0 ∧
+      adist c e = Mtrue d ∧ adist c w = Mtrue d ∧ adist c s ≤ Mtrue d ∧ adist c n ≤ Mtrue d :=
+  Hpx.Tightness.Mtrue_is_true_c2v cfg d hd
+
+
+end HelperIsTight
 
 end Hpx.C16
